@@ -48,9 +48,11 @@ func (o cliCmd) b(i int) bool {
 }
 
 type cliCase struct {
-	Rows   []gen.Row `json:"rows"`
-	Policy int       `json:"ignore_identical"` // value of --ignore-identical given to every command
-	Cmds   []cliCmd  `json:"cmds"`
+	Rows   []gen.Row  `json:"rows"`
+	Policy int        `json:"ignore_identical"` // value of --ignore-identical given to every command
+	Layout cli.Layout `json:"layout"`           // presentation of the FASTA files the harness writes
+	Stale  bool       `json:"stale,omitempty"`  // map/log output files exist beforehand with longer stale content
+	Cmds   []cliCmd   `json:"cmds"`
 }
 
 // names that FASTA can carry unchanged (no leading/trailing blank, no tab) including the special
@@ -87,6 +89,8 @@ func genCLI(t *rapid.T) cliCase {
 		c.Rows = append(c.Rows, gen.Row{Name: name, Seq: seq})
 	}
 	c.Policy = rapid.IntRange(0, 2).Draw(t, "policy")
+	c.Layout = cli.DrawLayout(t)
+	c.Stale = rapid.IntRange(0, 2).Draw(t, "stale") == 0
 	k := rapid.IntRange(2, 4).Draw(t, "ncmds")
 	for i := 0; i < k; i++ {
 		c.Cmds = append(c.Cmds, drawCLICmd(t))
@@ -213,7 +217,13 @@ func TestCLI(t *testing.T) {
 func checkCLI(dir string, c cliCase) (o pbt.Outcome, err error) {
 	// content of the file the next command reads, as rows (what was printed by the previous command)
 	file := toRows(c.Rows)
-	content := fastaOf(file)
+	content := cli.FastaLayout(c.Rows, c.Layout)
+	fresh := func(path string) { // an output file: absent, or present with stale content
+		os.Remove(path)
+		if c.Stale {
+			cli.StaleFile(path, 40)
+		}
+	}
 	policy := effectivePolicy(c.Policy)
 	prev := "start"
 	steps := 0
@@ -288,7 +298,7 @@ func checkCLI(dir string, c cliCase) (o pbt.Outcome, err error) {
 			args = []string{"rename", "-i", in, "--regexp", rule.re, "--replace", rule.repl}
 			if cmd.b(0) {
 				mapOut = filepath.Join(dir, fmt.Sprintf("map%d_%d.txt", k, len(content)))
-				os.Remove(mapOut)
+				fresh(mapOut)
 				args = append(args, "-m", mapOut)
 			}
 			if _, ok := rxApply(rule, "x"); !ok {
@@ -305,7 +315,7 @@ func checkCLI(dir string, c cliCase) (o pbt.Outcome, err error) {
 			args = []string{"rename", "-i", in, "--clean-names"}
 			if cmd.b(0) {
 				mapOut = filepath.Join(dir, fmt.Sprintf("map%d_%d.txt", k, len(content)))
-				os.Remove(mapOut)
+				fresh(mapOut)
 				args = append(args, "-m", mapOut)
 			}
 			for i, r := range out.rows {
@@ -338,7 +348,7 @@ func checkCLI(dir string, c cliCase) (o pbt.Outcome, err error) {
 			args = []string{"trim", "name", "-i", in, "-n", strconv.Itoa(size)}
 			if cmd.b(0) {
 				mapOut = filepath.Join(dir, fmt.Sprintf("map%d_%d.txt", k, len(content)))
-				os.Remove(mapOut)
+				fresh(mapOut)
 				args = append(args, "-m", mapOut)
 			}
 			precise := size >= 4
@@ -370,7 +380,7 @@ func checkCLI(dir string, c cliCase) (o pbt.Outcome, err error) {
 			args = []string{"trim", "name", "-i", in, "-a"}
 			if cmd.b(0) {
 				mapOut = filepath.Join(dir, fmt.Sprintf("map%d_%d.txt", k, len(content)))
-				os.Remove(mapOut)
+				fresh(mapOut)
 				args = append(args, "-m", mapOut)
 			}
 			structural = true
@@ -463,7 +473,7 @@ func checkCLI(dir string, c cliCase) (o pbt.Outcome, err error) {
 			}
 			if cmd.b(1) {
 				logFile = filepath.Join(dir, fmt.Sprintf("log%d_%d.txt", k, len(content)))
-				os.Remove(logFile)
+				fresh(logFile)
 				args = append(args, "-l", logFile)
 			}
 			pos := map[string]int{}
@@ -525,7 +535,11 @@ func checkCLI(dir string, c cliCase) (o pbt.Outcome, err error) {
 				}
 				other = append(other, row{Name: name, Seq: fit(r.Seq, target)})
 			}
-			of := cli.TempFile(dir, ".fa", fastaOf(other))
+			var otherG []gen.Row
+			for _, r := range other {
+				otherG = append(otherG, gen.Row{Name: r.Name, Seq: r.Seq})
+			}
+			of := cli.TempFile(dir, ".fa", cli.FastaLayout(otherG, c.Layout))
 			args = []string{cmd.Cmd, "-i", in, of}
 			om, oreadable := readModel(other, policy)
 			if !oreadable {
@@ -707,6 +721,12 @@ func checkCLI(dir string, c cliCase) (o pbt.Outcome, err error) {
 		o.Class("cli-start-duplicate-names")
 	}
 	o.Class("cli-ignore-identical=%d", c.Policy)
+	if !c.Layout.Plain() {
+		o.Class("cli-layout-varied")
+	}
+	if c.Stale {
+		o.Class("cli-stale-output-files")
+	}
 	o.Class("cli-commands-run=%d", steps)
 	o.NonTrivial = steps >= 2 && renamed
 	o.Classes = uniq(o.Classes)
